@@ -3,6 +3,7 @@ package main
 import (
 	"fmt"
 	"go/ast"
+	"go/constant"
 	"go/token"
 	"go/types"
 	"strings"
@@ -103,4 +104,23 @@ func c01LabelTargets(c *Ctx, p *Prog, ssap *packages.Package) {
 		}
 	}
 	c.Min(rule, "label target wirings in the SSA builder", n, 6)
+}
+
+// dotSuffixLiterals: the string literals of the form ".op" in stmts (the operation part of `typ.Name() + ".op"`).
+func dotSuffixLiterals(info *types.Info, stmts []ast.Stmt) []string {
+	var out []string
+	for _, s := range stmts {
+		ast.Inspect(s, func(n ast.Node) bool {
+			if bl, ok := n.(*ast.BasicLit); ok {
+				if tv, ok := info.Types[bl]; ok && tv.Value != nil && tv.Value.Kind() == constant.String {
+					v := constant.StringVal(tv.Value)
+					if len(v) > 1 && v[0] == '.' && strings.IndexFunc(v[1:], func(r rune) bool { return !(r == '_' || r >= 'a' && r <= 'z' || r >= '0' && r <= '9') }) < 0 {
+						out = append(out, v)
+					}
+				}
+			}
+			return true
+		})
+	}
+	return out
 }
